@@ -156,6 +156,7 @@ def main(pid, extra_units=None, extra_bounds=None, extra_uncovered=None, post=No
     if pid == 'C02':
         xj.append(('<BDD as PartialEq>::eq on canonical diagrams k=3', bddcore.unit_bdd_eq, (3 if quick else 4, {})))
         xj.append(('<BDD as Hash>::hash on canonical diagrams k=3', bddcore.unit_bdd_hash, (3, {})))
+        xj.append(('NamedSymbol: Hash consistent with Eq', bddcore.unit_symbol_hash, ({},)))
     if pid == 'C05':
         # the formula-language clause: `[..] op n` and `[..] op [..]` through the real evaluator, n an unconstrained usize
         import evalcore
